@@ -204,7 +204,21 @@ impl Context {
         let state = self.states.pop().expect("States underflow");
         let removed_from_rc = self.decrease_ref_count(state.memory_block_index);
         if removed_from_rc {
-            self.memory_blocks.remove(state.memory_block_index);
+            let removed = state.memory_block_index;
+            self.memory_blocks.remove(removed);
+            // the blocks after the removed one moved down by one position:
+            // adjust the stored indices that point to them
+            for s in self.states.iter_mut() {
+                if s.memory_block_index > removed {
+                    s.memory_block_index -= 1;
+                }
+            }
+            let mut static_memory_blocks = HashMap::new();
+            for (name, index) in self.static_memory_blocks.iter() {
+                let index = if *index > removed { *index - 1 } else { *index };
+                static_memory_blocks.insert(name.clone(), index);
+            }
+            self.static_memory_blocks = static_memory_blocks;
         }
         state
     }
